@@ -166,9 +166,11 @@ def do_run(prop, tier, seed):
 
     # 3. the generated search (and, for the checks that ask for it, the same search once more under unusual ambient settings)
     amb = None
-    if getattr(mod, 'AMBIENT_PASS', False) and not _is_ambient_child() and os.environ.get('VERIF_NO_AMBIENT') != '1':
+    mode = getattr(mod, 'AMBIENT_PASS', False)
+    if mode and not (mode == 'thorough-only' and tier != 'thorough') and not _is_ambient_child() and \
+            os.environ.get('VERIF_NO_AMBIENT') != '1':
         # (the heavy history checks run their ambient pass at the quick tier's budgets also in the thorough tier)
-        amb = start_ambient(prop, tier if getattr(mod, 'AMBIENT_PASS', False) != 'quick' else 'quick', ctx.seed)
+        amb = start_ambient(prop, tier if mode is True else 'quick', ctx.seed)
     try:
         mod.run(ctx)
     except BaseException:
